@@ -14,4 +14,9 @@ open CssVerif.ProdEngine CssVerif.Gen.C17Grammar
 /-- (a finite check over the probe battery — a test of the hand-written predicates, not a property theorem) -/
 theorem matchers_agree_with_probes : probes.all (fun p => p.1.test p.2.1 == p.2.2) = true := by decide +kernel
 
+/-- the captured media grammars have no `nextSor` (and no `stopAndKeep`) production: `ProdParser._SorTokens` is never
+wrapped around their token stream, and the engine model never answers `unsupported` because of a flag -/
+theorem media_grammars_never_reach_SorTokens :
+    mediaList.plain = true ∧ mediaQueryPartof.plain = true ∧ mediaQueryAlone.plain = true := by decide
+
 end CssVerif.C17Engine
